@@ -41,6 +41,10 @@ fn fnv(s: &str) -> u64 {
     h
 }
 
+/// where a child's stderr goes on the sanitizer build (sanitizer reports are read back from it)
+fn stderr_path() -> String {
+    format!("/dev/shm/ipcsim-stderr-{}", unsafe { libc::getppid() })
+}
 /// Body of the sacrificial child: run one case, write the result, exit.
 fn child_main(sc: &'static dyn Scenario, params: &Value, tmpdir: &str) -> ! {
     unsafe {
@@ -48,7 +52,8 @@ fn child_main(sc: &'static dyn Scenario, params: &Value, tmpdir: &str) -> ! {
         let lim = libc::rlimit { rlim_cur: 16000, rlim_max: 20000 };
         libc::setrlimit(libc::RLIMIT_NOFILE, &lim);
         // keep the library's own diagnostics out of the check's output
-        let devnull = libc::open(b"/dev/null\0".as_ptr() as *const _, libc::O_WRONLY);
+        let errpath = std::ffi::CString::new(stderr_path()).unwrap();
+        let devnull = if scen::VARIANT == "asan" { libc::open(errpath.as_ptr(), libc::O_WRONLY | libc::O_CREAT | libc::O_TRUNC, 0o600) } else { libc::open(b"/dev/null\0".as_ptr() as *const _, libc::O_WRONLY) };
         if devnull >= 0 && std::env::var("IPCSIM_STDERR").is_err() {
             libc::dup2(devnull, 2);
             libc::close(devnull);
@@ -74,7 +79,7 @@ fn child_main(sc: &'static dyn Scenario, params: &Value, tmpdir: &str) -> ! {
         "p_send_blocked": st.p_send_blocked, "p_recv_blocked": st.p_recv_blocked, "p_followup_blocked": st.p_followup_blocked,
         "p_fragmented_send": st.p_frag_send, "p_followup_tx": st.p_followup_tx, "p_epoll_full_batch": st.p_epoll_full,
         "p_epoll_blocked": st.p_epoll_blocked, "p_poll_timeout": st.p_poll_timeout, "p_ctrunc": st.p_ctrunc,
-        "p_trunc": st.p_trunc, "p_clock_jumps": st.p_clock_jumps, "p_futex_wait": st.p_futex_wait, "p_stale_probe": st.p_stale,
+        "p_trunc": st.p_trunc, "p_poisoned_buffers": st.p_poisoned, "p_clock_jumps": st.p_clock_jumps, "p_futex_wait": st.p_futex_wait, "p_stale_probe": st.p_stale,
         "late_calls": st.late_calls, "discipline_breaks": st.discipline_breaks, "bad_close": st.bad_close,
         "tx_ok": st.tx_ok, "rx_ok": st.rx_ok, "fds_passed": st.fds_passed, "shared_maps_total": st.shared_maps_total,
         "sigpipe": sim::SIGPIPES.load(std::sync::atomic::Ordering::SeqCst),
@@ -174,6 +179,14 @@ impl Runner {
             },
             _ => {
                 let how = if libc::WIFSIGNALED(st) { format!("signal {}", libc::WTERMSIG(st)) } else { format!("exit {}", libc::WEXITSTATUS(st)) };
+                let mut panics = panics;
+                if scen::VARIANT == "asan" {
+                    if let Ok(t) = std::fs::read_to_string(format!("/dev/shm/ipcsim-stderr-{}", unsafe { libc::getpid() })) {
+                        for l in t.lines().filter(|l| l.contains("ERROR: AddressSanitizer") || l.contains("SUMMARY:") || l.contains("unsafe precondition") || l.contains("panicked at")).take(4) {
+                            panics += &format!(" | {}", l.trim());
+                        }
+                    }
+                }
                 let note = format!("child died: {} ; panics: {}", how, panics.trim());
                 if let Some(v) = self.sc.died(&how, &panics) {
                     return CaseResult { verdict: Verdict::Violation, violations: vec![(v.sig, v.detail)], body: json!({"died": note}), note };
